@@ -31,18 +31,20 @@ def FullStatement : Prop := ∀ s, Reach s → ∀ i, nodeSurvives s i = true
 
 /-- what every reachable state satisfies: every queued light block has a short hash for each of its empty
 slots, no nil message is queued for the validator, the blockchain module's answers are well formed -/
-def Inv (s : State) : Prop := (∀ pd ∈ s.pend, PendOk pd) ∧ true ∉ s.msgs ∧ s.chain ≠ .items 0
+def Inv (s : State) : Prop :=
+  (∀ pd ∈ s.pend, PendOk pd) ∧ true ∉ s.msgs ∧ (s.chain ≠ .items 0 ∧ s.pool.short = false)
 
 theorem postChain_keeps (s : State) (key : String) :
-    (postChain s key).pend = s.pend ∧ (postChain s key).chain = s.chain ∧ (true ∉ s.msgs → true ∉ (postChain s key).msgs) := by
+    (postChain s key).pend = s.pend ∧ (postChain s key).chain = s.chain ∧ (postChain s key).pool = s.pool ∧
+      (true ∉ s.msgs → true ∉ (postChain s key).msgs) := by
   unfold postChain
   split
-  · exact ⟨rfl, rfl, id⟩
-  · exact ⟨rfl, rfl, by intro h; simpa using h⟩
+  · exact ⟨rfl, rfl, rfl, id⟩
+  · exact ⟨rfl, rfl, rfl, by intro h; simpa using h⟩
 
 theorem postChain_inv (s : State) (key : String) (h : Inv s) : Inv (postChain s key) := by
-  obtain ⟨h1, h2, h3⟩ := postChain_keeps s key
-  exact ⟨by rw [h1]; exact h.1, h3 h.2.1, by rw [h2]; exact h.2.2⟩
+  obtain ⟨h1, h2, h3, h4⟩ := postChain_keeps s key
+  exact ⟨by rw [h1]; exact h.1, h4 h.2.1, by rw [h2, h3]; exact h.2.2⟩
 
 theorem foldl_postChain_inv (l : List (Slots × Pend)) (s : State) (h : Inv s) :
     Inv (l.foldl (fun st p => postChain st p.2.key) s) := by
@@ -52,7 +54,7 @@ theorem foldl_postChain_inv (l : List (Slots × Pend)) (s : State) (h : Inv s) :
 
 /-- one tick of pendBlockLoop never panics on queued blocks and keeps them well formed -/
 theorem tick_total (s : State) (h : Inv s) : ∃ s' o, tick s = .ok (s', o) ∧ Inv s' := by
-  obtain ⟨keep, posted, tmo, hr, hk⟩ := pendList_total s.pool s.now s.timeout s.pend h.1
+  obtain ⟨keep, posted, tmo, hr, hk⟩ := pendList_total s.pool s.now s.timeout s.pend h.1 h.2.2.2
   unfold tick
   rw [hr]
   refine ⟨_, _, rfl, ?_⟩
@@ -94,7 +96,7 @@ theorem recvLt_inv (s : State) (i : LtIn) (h : Inv s) : Inv (recvLtTotal s i).1 
                     simp at hpd
                     rcases hpd with hpd | rfl
                     · exact h.1 pd hpd
-                    · exact build_keeps_ok _ _ _ hb (by simpa using hd)
+                    · exact build_keeps_ok _ _ _ hb (by simpa using hd) h.2.2.2
 
 theorem applyInput_inv (s : State) (i : Input) (h : Inv s) : Inv (applyInput s i) := by
   cases i with
@@ -148,15 +150,32 @@ theorem applyInput_inv (s : State) (i : Input) (h : Inv s) : Inv (applyInput s i
   | dlReply _ => exact h
   | version _ _ _ => exact h
   | peerInfo _ _ => exact h
+  | peerInfoReply _ => exact h
+  | versionReply _ _ => exact h
+  | vBlock b =>
+    simp only [applyInput, validateBlock]
+    repeat' split
+    all_goals exact ⟨h.1, h.2.1, h.2.2⟩
+  | vTx sf d t =>
+    simp only [applyInput, validateTx]
+    repeat' split
+    all_goals exact ⟨h.1, h.2.1, h.2.2⟩
+  | vBatch sf d txs =>
+    simp only [applyInput, validateBatch]
+    repeat' split
+    all_goals exact ⟨h.1, h.2.1, h.2.2⟩
+
+theorem Pool.push_short (p : Pool) (h : SH) (t : PoolTx) : (p.push h t).short = p.short := by
+  unfold Pool.push; split <;> rfl
 
 theorem reach_inv {s : State} (h : Reach s) : Inv s := by
   induction h with
-  | init m t => exact ⟨by simp, by simp, by simp⟩
+  | init m t => exact ⟨by simp, by simp, by simp, rfl⟩
   | input i _ _ ih => exact applyInput_inv _ i ih
-  | pool h t _ ih => exact ⟨ih.1, ih.2.1, ih.2.2⟩
+  | pool h t _ ih => exact ⟨ih.1, ih.2.1, ih.2.2.1, by rw [Pool.push_short]; exact ih.2.2.2⟩
   | poolDel h _ ih => exact ⟨ih.1, ih.2.1, ih.2.2⟩
   | poolUp u _ ih => exact ⟨ih.1, ih.2.1, ih.2.2⟩
-  | env c n ch _ hc ih => exact ⟨ih.1, ih.2.1, hc⟩
+  | env c n ch _ hc ih => exact ⟨ih.1, ih.2.1, hc, ih.2.2.2⟩
 
 /-- block requests: the queued-request loop never panics as long as the local blockchain module answers a
 successful GetBlocks(h,h) with at least one item -/
@@ -197,20 +216,27 @@ theorem dlReply_checks_height (r : DlReply) (h : Int) (hr : dlReply r = .ok (som
           simp at hr; subst hr
           exact Decidable.of_not_not hne
 
-theorem dlNewCore_total (c : ChainReply) (a b : Int) : dlNewCore c a b ≠ .panic := by
+/-- the new download handler panics exactly when the blockchain module's reply is neither an error nor a
+BlockDetails (unchecked type assertion at handler.go:37) — under HandlerWithClose's recover -/
+theorem dlNewCore_panic_iff (c : ChainReply) (a b : Int) :
+    dlNewCore c a b = .panic ↔ badRange a b = false ∧ c = .otherType := by
   unfold dlNewCore
-  split
-  · simp
-  · cases c with
-    | err => simp
-    | items n => cases n <;> simp
+  cases hb : badRange a b <;> simp
+  cases c with
+  | err => simp
+  | otherType => simp
+  | items n => cases n <;> simp
 
-theorem dlNew_total (c : ChainReply) (rd : ReadRes) (a b : Int) : dlNew c rd a b ≠ .panic := by
+theorem dlNew_panic_iff (c : ChainReply) (rd : ReadRes) (a b : Int) :
+    dlNew c rd a b = .panic ↔ c = .otherType ∧ (rd = .zero ∨ (rd = .msg ∧ badRange a b = false)) := by
   unfold dlNew
   cases rd with
   | err => simp
-  | zero => exact dlNewCore_total c 0 0
-  | msg => exact dlNewCore_total c a b
+  | zero =>
+    simp only [dlNewCore_panic_iff]
+    have : badRange 0 0 = false := by decide
+    simp [this]
+  | msg => simp only [dlNewCore_panic_iff]; simp [and_comm]
 
 theorem version_total (rd : ReadRes) (a b : Bool) : version rd a b ≠ .panic := by
   cases rd <;> cases a <;> cases b <;> decide
@@ -218,19 +244,21 @@ theorem version_total (rd : ReadRes) (a b : Bool) : version rd a b ≠ .panic :=
 theorem peerInfo_total (o : Bool) (rd : ReadRes) : peerInfo o rd ≠ .panic := by
   unfold peerInfo; split <;> simp
 
-/-- the old download handler dereferences `data.Message` unchecked: it panics exactly on a request whose
-`Message` is absent (or whose stream header does not match — ReadStream then returns nil with the zero
-message); the panic is caught by HandlerWithClose. -/
+/-- the old download handler dereferences `data.Message` unchecked and asserts the reply type unchecked: it
+panics exactly on a request whose `Message` is absent (or whose stream header does not match — ReadStream then
+returns nil with the zero message), or when the blockchain module's reply has another dynamic type; the panic is
+caught by HandlerWithClose. -/
 theorem dlOld_panic_iff (c : ChainReply) (rd : ReadRes) (hm : Bool) (a b : Int) :
-    dlOld c rd hm a b = .panic ↔ rd = .zero ∨ (rd = .msg ∧ hm = false) := by
+    dlOld c rd hm a b = .panic ↔
+      rd = .zero ∨ (rd = .msg ∧ (hm = false ∨ (badRange a b = false ∧ c = .otherType))) := by
   unfold dlOld
   cases rd <;> simp
   cases hm <;> simp
-  split
-  · simp
-  · cases c with
-    | err => simp
-    | items n => cases n <;> simp
+  cases hb : badRange a b <;> simp
+  cases c with
+  | err => simp
+  | otherType => simp
+  | items n => cases n <;> simp
 
 /-- state invariant ⇒ every input is survived -/
 theorem survives_of_inv (s : State) (i : Input) (h : Inv s) : nodeSurvives s i = true := by
@@ -241,7 +269,7 @@ theorem survives_of_inv (s : State) (i : Input) (h : Inv s) : nodeSurvives s i =
     simp [nodeSurvives, runInput, hr, Res.isPanic]
   | blockReq r => simp [nodeSurvives, runInput, recovered]
   | reqTick =>
-    obtain ⟨r, hr⟩ := reqTick_total s h.2.2
+    obtain ⟨r, hr⟩ := reqTick_total s h.2.2.1
     simp [nodeSurvives, runInput, hr, Res.isPanic]
   | blockResp d k => simp [nodeSurvives, runInput]
   | block k => simp [nodeSurvives, runInput]
@@ -255,6 +283,19 @@ theorem survives_of_inv (s : State) (i : Input) (h : Inv s) : nodeSurvives s i =
     cases h : dlReply r <;> simp_all [nodeSurvives, runInput, Res.isPanic]
   | version rd a b => simp [nodeSurvives, runInput, recovered]
   | peerInfo o rd => simp [nodeSurvives, runInput, recovered]
+  | peerInfoReply rd => cases rd <;> simp [nodeSurvives, runInput, queryInfo, Res.isPanic]
+  | versionReply rd ab => cases rd <;> simp [nodeSurvives, runInput, queryVersion, Res.isPanic]
+  | vBlock b => simp [nodeSurvives, runInput]
+  | vTx _ _ _ => simp [nodeSurvives, runInput]
+  | vBatch _ _ _ => simp [nodeSurvives, runInput]
+
+/-- the one thing `node_survives` takes from the local mempool module: it answers EventTxListByHash with one entry
+per requested hash (getTxListByHash appends one entry per hash). `txList.GetTxs()[i]` is not guarded, inside the
+unrecovered pendBlockLoop: with a shorter reply the tick panics. `Reach` has no step that makes the reply short —
+it is the assumption, made explicit. Replayed on the real code with a scripted short reply (no predicate failure:
+not a peer input). -/
+theorem short_mempool_reply_panics :
+    (tick { pool := { short := true }, pend := [⟨"k", 1, 5, 0, ["a", "b"], [some 0, none]⟩] }).isPanic = true := by decide
 
 /-- **Peer input can never crash the node** (model of the repaired code): in every state reachable by any
 sequence of peer inputs, background ticks, pool updates and clock/chain progress, every further input —
@@ -294,7 +335,7 @@ theorem recvLt_panics_exist :
 without any panic, whatever the pool holds -/
 theorem recvLt_wellformed_total (s : State) (i : LtIn)
     (hh : i.hasHeader = true) (h1 : 1 ≤ i.txCount) (h2 : i.txCount ≤ bigSlice)
-    (hl : i.txCount.toNat ≤ i.hashes.length) :
+    (hl : i.txCount.toNat ≤ i.hashes.length) (hs : s.pool.short = false) :
     ∃ r, recvLt s i = .ok r := by
   unfold recvLt
   split
@@ -314,7 +355,7 @@ theorem recvLt_wellformed_total (s : State) (i : LtIn)
         · rw [List.getElem?_eq_none h] at hj; simp at hj
       rw [hlen] at this
       simp only [Nat.zero_add]; omega
-    obtain ⟨r, hr, _⟩ := build_total s.pool _ hc
+    obtain ⟨r, hr, _⟩ := build_total s.pool _ hc hs
     rw [hr]
     simp only
     split
@@ -406,6 +447,118 @@ theorem applyInput_held (s : State) (i : Input) : (applyInput s i).held = s.held
   | dlReply _ => rfl
   | version _ _ _ => rfl
   | peerInfo _ _ => rfl
+  | peerInfoReply _ => rfl
+  | versionReply _ _ => rfl
+  | vBlock b =>
+    simp only [applyInput, validateBlock]
+    repeat' split
+    all_goals rfl
+  | vTx sf d t =>
+    simp only [applyInput, validateTx]
+    repeat' split
+    all_goals rfl
+  | vBatch sf d txs =>
+    simp only [applyInput, validateBatch]
+    repeat' split
+    all_goals rfl
+
+theorem postChain_unans (s : State) (key : String) : (postChain s key).unanswered = s.unanswered := by
+  unfold postChain; split <;> rfl
+
+theorem foldl_postChain_unans (l : List (Slots × Pend)) (s : State) :
+    (l.foldl (fun st p => postChain st p.2.key) s).unanswered = s.unanswered := by
+  induction l generalizing s with
+  | nil => rfl
+  | cons a l ih => simp only [List.foldl_cons]; rw [ih, postChain_unans]
+
+theorem recvLt_unans (s s' : State) (i : LtIn) (o : LtOut) (hr : recvLt s i = .ok (s', o)) : s'.unanswered = s.unanswered := by
+  unfold recvLt at hr
+  split at hr
+  · simp at hr; obtain ⟨rfl, _⟩ := hr; rfl
+  · dsimp only at hr
+    repeat' split at hr
+    all_goals first
+      | (simp at hr; done)
+      | (simp at hr; obtain ⟨rfl, _⟩ := hr; first | rfl | exact postChain_unans _ _)
+
+theorem applyInput_unans (s : State) (i : Input) : (applyInput s i).unanswered = s.unanswered := by
+  cases i with
+  | lt i =>
+    simp only [applyInput, recvLtTotal, recvLtTotalWith]
+    cases hr : recvLt s i with
+    | panic => simp [addLtBlockRelease, Release.leaksOnPanic]
+    | ok r => obtain ⟨s', o⟩ := r; exact recvLt_unans s s' i o hr
+  | pendTick =>
+    simp only [applyInput]
+    cases hr : tick s with
+    | panic => rfl
+    | ok r =>
+      obtain ⟨s', o⟩ := r
+      simp only
+      unfold tick at hr
+      split at hr
+      · simp at hr
+      · simp at hr; obtain ⟨rfl, _⟩ := hr; rw [foldl_postChain_unans]
+  | blockReq r =>
+    simp only [applyInput]
+    cases hr : recvReq s r with
+    | panic => rfl
+    | ok x =>
+      obtain ⟨s', o⟩ := x
+      simp only
+      unfold recvReq at hr
+      split at hr
+      · simp at hr; obtain ⟨rfl, _⟩ := hr; rfl
+      · split at hr
+        all_goals first
+          | (simp at hr; done)
+          | (simp at hr; obtain ⟨rfl, _⟩ := hr; rfl)
+  | reqTick =>
+    simp only [applyInput]
+    cases hr : reqTick s with
+    | panic => rfl
+    | ok x =>
+      obtain ⟨s', o⟩ := x
+      simp only
+      unfold reqTick at hr
+      split at hr
+      · simp at hr
+      · simp at hr; obtain ⟨rfl, _⟩ := hr; rfl
+  | blockResp d k =>
+    simp only [applyInput, recvResp]
+    split
+    · rfl
+    · split <;> exact postChain_unans s k
+  | block k => exact postChain_unans s k
+  | deniedTick =>
+    simp only [applyInput]
+    cases hr : deniedTick s with
+    | panic => rfl
+    | ok s' =>
+      simp only
+      unfold deniedTick at hr
+      split at hr
+      · simp at hr
+      · simp at hr; subst hr; rfl
+  | dlOld _ _ _ _ => rfl
+  | dlNew _ _ _ => rfl
+  | dlReply _ => rfl
+  | version _ _ _ => rfl
+  | peerInfo _ _ => rfl
+  | peerInfoReply _ => rfl
+  | versionReply _ _ => rfl
+  | vBlock b =>
+    simp only [applyInput, validateBlock]
+    repeat' split
+    all_goals rfl
+  | vTx sf d t =>
+    simp only [applyInput, validateTx]
+    repeat' split
+    all_goals rfl
+  | vBatch sf d txs =>
+    simp only [applyInput, validateBatch]
+    repeat' split
+    all_goals rfl
 
 /-- **no peer input leaves a lock behind**: in every reachable state no mutex of the light-broadcast / validator
 state is held (every function that takes one releases it by `defer`, and addLtBlock does not hold pdBlockLock
@@ -423,6 +576,25 @@ theorem no_lock_left_behind {s : State} (h : Reach s) : s.held = [] := by
 blockRequestLoop and manageDeniedPeer can all take their lock and step (and by `node_survives` the step returns) -/
 theorem loops_stay_alive {s : State} (h : Reach s) (l : LockId) : loopAlive s l = true := by
   simp [loopAlive, no_lock_left_behind h]
+
+/-- **no peer input makes manageDeniedPeer wait for ever**: the loop waits without a timer for the verdict of every
+broadcast it handed over; the count of verdicts that never come is not changed by any input, pool update or tick —
+it can only become positive through the local blockchain module (which replies on every path, also after a panic),
+i.e. outside what a peer controls. With `loops_stay_alive` (locks) and `node_survives` (each step returns) this is the
+model's content of "permanently stop one of its background loops"; queue back-pressure and libp2p are runtime. -/
+theorem denied_loop_never_blocked_by_peer {s : State} (h : Reach s) : deniedLoopBlocked s = false := by
+  have : s.unanswered = 0 := by
+    induction h with
+    | init m t => rfl
+    | input i _ _ ih => rw [applyInput_unans]; exact ih
+    | pool _ _ _ ih => exact ih
+    | poolDel _ _ ih => exact ih
+    | poolUp _ _ ih => exact ih
+    | env _ _ _ _ _ ih => exact ih
+  simp [deniedLoopBlocked, this]
+
+/-- the assumption made visible: one verdict that never comes blocks the loop -/
+example : deniedLoopBlocked { unanswered := 1 } = true := by decide
 
 /-- why the discipline matters: were pdBlockLock held around buildPendBlock and given back by an explicit Unlock,
 ONE light block whose txCount exceeds its hash list (recovered panic) would leave it locked — pendBlockLoop could
